@@ -4,11 +4,12 @@
    The hash-keyed repetition table raises its flag exactly on the third occurrence (board_eqb = same
    placement, side, rights, e.p. file) among the boards added since it was cleared, for histories of ANY
    length, provided equal boards carry equal piece hashes - which C04 proves for boards whose hash is the
-   from-scratch one (C15_threefold, C15_equal_boards_equal_hash).  OPEN: hash consistency of every board
-   the bot reaches (needs C04's open link from legality to the local move conditions); decided per run by driving the real cdylib through its stable interface with the abstract history
+   from-scratch one (C15_threefold, C15_equal_boards_equal_hash), hence for every history of boards reached
+   from a parsed board / the standard position by accepted moves (C15_threefold_reachable; side conditions of
+   `Reach`: the mover has a king, <= 400 owed moves).  Also decided per run by driving the real cdylib through its stable interface with the abstract history
    spec as monitor.  Interpretation (DESIGN.md): the position handed to set_board is not itself counted. *)
 From Coq Require Import NArith List Bool.
-From Chess Require Import base.Types model.Board model.MoveGen model.Apply model.Search model.Bot proofs.HashFacts proofs.BotFacts.
+From Chess Require Import base.Types model.Board model.MoveGen model.Apply model.Search model.Bot proofs.HashFacts proofs.BotFacts spec.IterSpec proofs.InvFacts proofs.Combine.
 Import ListNotations.
 Local Open Scope N_scope.
 
@@ -36,3 +37,8 @@ Theorem C15_equal_boards_equal_hash : forall a b, consistent a -> consistent b -
   b_zob a = b_zob b /\ zobrist a = zobrist b.
 Proof. exact eq_boards_eq_hash_strong. Qed.
 Print Assumptions C15_equal_boards_equal_hash.
+
+Theorem C15_threefold_reachable : forall bs, (forall x, In x bs -> Reach x) ->
+  snd (add_all [] bs) = expected_flags [] bs.
+Proof. exact threefold_reachable. Qed.
+Print Assumptions C15_threefold_reachable.
